@@ -7,6 +7,10 @@
 (* are evaluated on every prefix of every run.  Nothing else is compared: the order of concurrent   *)
 (* calls is constrained only where one call ended before the other started.                         *)
 (* Runs are concatenated; a "reset" record starts one, an "End" record closes it.                   *)
+(* This module extends RtProps only (not ActixRt): arbiter numbers, task ids, thread ids and exit   *)
+(* codes are whatever integers the driver used, so runs with dozens of arbiters, negative codes or  *)
+(* several Systems on one OS thread (one reset..End segment per System) are judged by the same       *)
+(* predicates without any model bound.                                                               *)
 EXTENDS RtProps, Json, IOUtils, TLC, TLCExt
 
 Rec == ndJsonDeserialize(IOEnv.TRACE)
@@ -16,6 +20,7 @@ R == Rec[l + 1]
 
 Summary == [order |-> NT_Order, started |-> NT_Started, afterStop |-> NT_AfterStop, afterGone |-> NT_AfterGone,
             mustStop |-> NT_MustStop, twoStops |-> NT_TwoStops, early |-> NT_Early,
+            selfSend |-> NT_SelfSend, echo |-> NT_Echo, negCode |-> NT_NegCode, ncreated |-> Cardinality(h.created),
             nmust |-> Cardinality(h.mustStop), ncands |-> Cardinality(h.run.cands),
             sends |-> Cardinality(DOMAIN h.snd), starts |-> Cardinality(AllStarts),
             driftFalse |-> ~X_FalseOnlyAfterStop, driftEarly |-> ~X_EarlyStopJoins]
@@ -31,11 +36,13 @@ Apply(r) ==
     [] r.ev = "StopCallEnd"   -> H_StopEnd(h, r.arb)
     [] r.ev = "TaskStart"     -> H_TaskStart(h, r.id, r.arb, r.tid, r.cur, r.sysid)
     [] r.ev = "Echo"          -> H_Echo(h, r.arb, r.tid)
+    [] r.ev = "EchoSend"      -> H_EchoSend(h, r.arb, r.ok)
     [] r.ev = "SysStopStart"  -> H_SysStopStart(h, r.code)
     [] r.ev = "SysStopEnd"    -> H_SysStopEnd(h)
     [] r.ev \in {"JoinReturned", "GoneObserved"} -> H_Join(h, r.arb, TRUE)
     [] r.ev \in {"JoinTimeout", "GoneTimeout"}   -> H_Join(h, r.arb, FALSE)
-    [] r.ev = "RunReturned"   -> H_RunRet(h, r.api, r.ok, r.code)
+    [] r.ev = "RunReturned"   -> IF "coded" \in DOMAIN r /\ ~r.coded THEN H_RunRetNoCode(h, r.api)
+                                  ELSE H_RunRet(h, r.api, r.ok, r.code)
     [] r.ev = "RunTimeout"    -> H_RunTimeout(h)
     [] r.ev = "BlockOn"       -> H_BlockOn(h, r.expected, r.got)
     [] OTHER                  -> h
